@@ -270,3 +270,18 @@ Proof. intros o. unfold chk_cache_init. destruct (init_gen o), (o_cache o); refl
 Lemma tie_no_class_write_before_build_class :
   early_class_writers = [] /\ raises_at_or_after_build_class = 0 /\ wrap_ends_with_build_class = true.
 Proof. repeat split; reflexivity. Qed.
+
+(** ** [setters.pipe]: a hook collection of ANY length, the empty one included, becomes a
+    function object — never the [NO_OP] sentinel, [None] or a falsy value.  This is what
+    lets the model read every list / tuple / [pipe(...)] given as [on_setattr] as
+    [OsPipe hs] / [COsPipe hs] (hooks were requested) also for [hs = []]. *)
+Lemma tie_pipe_never_no_op : forall some_setters,
+  exists v, setters_pipe some_setters = PRet [v] /\
+            pyv_is v PV_NO_OP = false /\ pyv_is v PVNone = false /\ pyv_truthy v = true.
+Proof. intros b. destruct b; eexists; repeat split; reflexivity. Qed.
+
+(** so the injections used above are faithful on hook collections of any length *)
+Lemma tie_pipe_injections : forall hs chs,
+  pyv_is (inj_os (OsPipe hs)) PV_NO_OP = false /\ pyv_is (inj_os (OsPipe hs)) PVNone = false /\
+  pyv_is (inj_cos (COsPipe chs)) PV_NO_OP = false /\ pyv_is (inj_cos (COsPipe chs)) PVNone = false.
+Proof. intros; repeat split; reflexivity. Qed.
